@@ -244,6 +244,117 @@ def frame_obligations(chk):
                            smt_thunk(p.pc, goal, 30), function=fn, replayer=_replay_new(rc), key=f"C12/{fn}/post.trim")
 
 
+# ------------------------------------------------------------------------------------------------ k-mer coordinates
+class Vec:
+    """a numpy vector of fixed length with symbolic integer entries"""
+
+    def __init__(self, items):
+        self.items = list(items)
+
+
+class KmerHooks(ClassHooks):
+    def global_name(self, eng, name):
+        if name == "numpy":
+            return Opaque("module", modname="numpy")
+        return super().global_name(eng, name)
+
+    def call_method(self, eng, obj, meth, args, kw, env):
+        if isinstance(obj, Opaque) and obj.tag == "module":
+            if meth == "array":
+                return Vec(args[0])
+            if meth == "zeros":
+                return Vec([0] * args[0])
+            if meth == "divmod":
+                q = eng.floordiv(args[0], args[1])
+                return (q, args[0] - q * args[1])
+        if isinstance(obj, Vec) and meth == "sum":
+            out = 0
+            for x in obj.items:
+                out = out + x
+            return out
+        if isinstance(obj, Vec) and meth == "__len__":
+            return len(obj.items)
+        return super().call_method(eng, obj, meth, args, kw, env)
+
+    def subscript(self, eng, obj, idx):
+        if isinstance(obj, Vec):
+            if isinstance(idx, tuple) and idx and isinstance(idx[0], str) and idx[0] == "store":
+                obj.items[idx[1]] = idx[2]
+                return None
+            return obj.items[idx]
+        return super().subscript(eng, obj, idx)
+
+    def get_attr(self, eng, obj, attr):
+        if isinstance(obj, Vec) and attr == "dtype":
+            return Opaque("dtype")
+        return super().get_attr(eng, obj, attr)
+
+
+def _patch_vec_binop(eng):
+    orig = eng.binop
+    import ast as _ast
+
+    def binop(op, l, r):
+        if isinstance(l, Vec) and isinstance(r, Vec) and isinstance(op, _ast.Mult):
+            return Vec([a * b for a, b in zip(l.items, r.items)])
+        return orig(op, l, r)
+    eng.binop = binop
+
+
+def kmer_obligations(chk):
+    """mixed-radix encode/decode of a codon (k = 3 is fixed by the property): index_to_coord(coord_to_index(c)) == c,
+    the index is inside [0, n**3), for every alphabet size n >= 2"""
+    NA = "cogent3/core/new_alphabet.py"
+    fn = "core.new_alphabet.coord_to_index/index_to_coord"
+    funcs = {n: extract.get(NA, n) for n in ("coord_conversion_coeffs", "coord_to_index", "index_to_coord")}
+    for q in funcs:
+        chk.function(NA, q, "P")
+    n = z3.Int("nstates")
+    c = z3.Ints("c0 c1 c2")
+    pre = [n >= 2] + [z3.And(0 <= x, x < n) for x in c]
+    hooks = KmerHooks(funcs, set())
+    eng = Engine(funcs, hooks)
+    _patch_vec_binop(eng)
+
+    def entry(e):
+        coeffs = e.call("coord_conversion_coeffs", dict(num_states=n, k=3, dtype=None))
+        idx = e.call("coord_to_index", dict(coord=Vec(c), coeffs=coeffs))
+        back = e.call("index_to_coord", dict(index=idx, coeffs=coeffs))
+        return (coeffs, idx, back)
+    try:
+        paths = eng.run(entry, pre)
+    except Unsupported as u:
+        chk.undecided.append(f"{fn}: UNSUPPORTED {u}")
+        return
+    chk.obligation(f"{fn}/cover", "cover", cover_thunk(pre), function=fn)
+    for k, p in enumerate(paths):
+        if p.outcome != "return":
+            goal = z3.BoolVal(False)
+        else:
+            coeffs, idx, back = p.value
+            goal = z3.And(coeffs.items[0] == n * n, coeffs.items[1] == n, coeffs.items[2] == 1,
+                          idx == c[0] * n * n + c[1] * n + c[2], 0 <= idx, idx < n * n * n,
+                          *[b == x for b, x in zip(back.items, c)])
+        chk.obligation(f"{fn}/post.decode(encode(c))==c/path={k}", "post", smt_thunk(p.pc, goal, 60), function=fn,
+                       key=f"C12/{fn}/post", replayer=_replay_kmer)
+
+
+def _replay_kmer(model):
+    import itertools
+
+    import numpy
+    from cogent3.core import new_alphabet as NA
+    for n in (2, 4, 5):
+        coeffs = NA.coord_conversion_coeffs(n, 3, dtype=numpy.int64)
+        for cc in itertools.product(range(n), repeat=3):
+            idx = NA.coord_to_index(numpy.array(cc, dtype=numpy.int64), coeffs)
+            back = NA.index_to_coord(idx, coeffs)
+            if idx != cc[0] * n * n + cc[1] * n + cc[2] or tuple(int(x) for x in back) != cc:
+                return {"failed": True, "witness": {"n": n, "coord": cc},
+                        "description": f"n={n}: coord_to_index({cc}) = {idx}, index_to_coord gives {list(back)}"}
+    return {"failed": False, "description": "all codon coordinates for n in {2,4,5} encode/decode correctly"}
+
+
 def _replay_old(model):
     from cogent3.core.genetic_code import get_code
     L, start = model.get("L", 0), model.get("start", 0)
@@ -282,6 +393,7 @@ def run(chk):
     if not only or "proof" in only:
         finite_obligations(chk)
         frame_obligations(chk)
+        kmer_obligations(chk)
         chk.discharge()
     chk.assume("bytes.translate / str slicing are pointwise (trusted): the translation of a sequence is the concatenation of "
                "the per-codon lookups of the segments proved here")
